@@ -235,6 +235,28 @@ def guardStart (framelen : Nat) (a : Bytes) : Bytes :=
 
 def frameLen (is16 stereo : Bool) : Nat := (if is16 then 2 else 1) * (if stereo then 2 else 1)
 
+/-- The part of `libxmp_load_sample` after the truncation block: loop sanity, allocation, read,
+    conversions, interleave, full-repeat flag, guard fill.  `bytelen`/`len` are the values the
+    truncation block left; `is16`/`stereo`/`framelen` were computed from `xxs->flg` before. -/
+def loadCore (flags : Nat) (h : Hdr) (is16 stereo : Bool) (bytelen : Nat) (len : Int) (f : Bytes) (buffer : Bytes) :
+    Result :=
+  let framelen := frameLen is16 stereo
+  let channels := if stereo then 2 else 1
+  let extralen := 4 * framelen
+  let h := loopSanity { h with len := len }
+  let planar := stereo && !fl flags SAMPLE_FLAG_INTERLEAVED
+  match readDest flags bytelen f buffer with
+  | none => .error
+  | some (dest, consumed) =>
+    let n := h.len.toNat
+    let dest := convert flags is16 n channels dest
+    let pcm := if planar then stereoInterleave n is16 dest else dest
+    let h := fullRep flags h
+    let a := ([0, 0, 0, 0] : Bytes) ++ pcm
+    let a := guardEnd extralen framelen a
+    let a := guardStart framelen a
+    .ok h a consumed
+
 /-- `libxmp_load_sample(m, f, flags, xxs, buffer)`.
     `skip` = `m && (m->smpctl & XMP_SMPCTL_SKIP)`; `f` = the bytes from the handle's current
     position to its end (`none`: NULL handle); `buffer` is only used with `SAMPLE_FLAG_NOLOAD`
@@ -252,8 +274,6 @@ def load (flags : Nat) (h : Hdr) (skip : Bool) (f : Option Bytes) (buffer : Byte
     let is16 := sf h.flg XMP_SAMPLE_16BIT
     let stereo := sf h.flg XMP_SAMPLE_STEREO
     let framelen := frameLen is16 stereo
-    let channels := if stereo then 2 else 1
-    let extralen := 4 * framelen
     let bytelen := h.len.toNat * framelen
     let tr : Option (Nat × Int) :=
       if fl flags SAMPLE_FLAG_NOLOAD then some (bytelen, h.len)
@@ -262,20 +282,7 @@ def load (flags : Nat) (h : Hdr) (skip : Bool) (f : Option Bytes) (buffer : Byte
         | some av => truncBlock flags is16 stereo framelen bytelen h.len av.length
     match tr with
     | none => .skipped h 0
-    | some (bytelen, len) =>
-      let h := loopSanity { h with len := len }
-      let planar := stereo && !fl flags SAMPLE_FLAG_INTERLEAVED
-      match readDest flags bytelen (f.getD []) buffer with
-      | none => .error
-      | some (dest, consumed) =>
-        let n := h.len.toNat
-        let dest := convert flags is16 n channels dest
-        let pcm := if planar then stereoInterleave n is16 dest else dest
-        let h := fullRep flags h
-        let a := ([0, 0, 0, 0] : Bytes) ++ pcm
-        let a := guardEnd extralen framelen a
-        let a := guardStart framelen a
-        .ok h a consumed
+    | some (bytelen, len) => loadCore flags h is16 stereo bytelen len (f.getD []) buffer
 
 /-- Every buffer access of the C function as `(buffer, lo, hi)` half-open byte ranges relative to
     the start of the buffer's allocation (`0` = `xxs->data - 4`, `1` = `tmp`), expressed in the
